@@ -420,7 +420,7 @@ func main() {
 		os.Exit(0)
 	}
 	var runs []run
-	for _, t := range trees(r.Thorough()) {
+	for _, t := range trees(true) {
 		for _, e := range []string{"import", "dir", "file"} {
 			for _, f := range []string{"disk", "mapfs"} {
 				runs = append(runs, run{T: t, Entry: e, FS: f})
@@ -428,7 +428,7 @@ func main() {
 		}
 	}
 	// retry after a failed import: trees of >= 2 packages in which every package is needed (chains, diamonds, fan-in: every package exists once), on the virtual filesystem
-	for _, t := range trees(r.Thorough()) {
+	for _, t := range trees(true) {
 		_, resolvable := t.expected()
 		if !resolvable || t.Cycle || len(t.Pkgs) < 2 || !strings.HasPrefix(t.Name, "F3 ") {
 			continue
